@@ -70,6 +70,22 @@ Definition lit_null : bytes := [110; 117; 108; 108].
 Definition lit_true : bytes := [116; 114; 117; 101].
 Definition lit_false : bytes := [102; 97; 108; 115; 101].
 
+Definition print_list (pr : json -> bytes) : list json -> bytes :=
+  fix go (l : list json) : bytes :=
+    match l with
+    | [] => []
+    | [x] => pr x
+    | x :: r => pr x ++ 44 :: go r
+    end.
+
+Definition print_members (pr : json -> bytes) : list (bytes * json) -> bytes :=
+  fix go (m : list (bytes * json)) : bytes :=
+    match m with
+    | [] => []
+    | [(k, v)] => print_str k ++ 58 :: pr v
+    | (k, v) :: r => print_str k ++ 58 :: pr v ++ 44 :: go r
+    end.
+
 Fixpoint print (j : json) : bytes :=
   match j with
   | JNull => lit_null
@@ -78,20 +94,8 @@ Fixpoint print (j : json) : bytes :=
   | JInt z => print_Z z
   | JFloat lex => lex
   | JStr s => print_str s
-  | JArr l =>
-      91 :: (fix go (l : list json) : bytes :=
-               match l with
-               | [] => []
-               | [x] => print x
-               | x :: r => print x ++ 44 :: go r
-               end) l ++ [93]
-  | JObj m =>
-      123 :: (fix go (m : list (bytes * json)) : bytes :=
-                match m with
-                | [] => []
-                | [(k, v)] => print_str k ++ 58 :: print v
-                | (k, v) :: r => print_str k ++ 58 :: print v ++ 44 :: go r
-                end) m ++ [125]
+  | JArr l => 91 :: print_list print l ++ [93]
+  | JObj m => 123 :: print_members print m ++ [125]
   end.
 
 (* ------------------------------------------------------------------ *)
@@ -264,28 +268,31 @@ Definition exp_part (s : bytes) : res (Z * bytes * bytes) :=   (* exponent value
   | [] => Ok (0%Z, [], s)
   end.
 
-Definition parse_num (strict : bool) (s : bytes) : res (json * bytes) :=
-  let '(neg, s1) := match s with 45 :: r => (true, r) | _ => (false, s) end in
-  do (int, r1) <-
-     match s1 with
-     | c :: r =>
-         if c =? 48 then
-           match r with
-           | d :: _ => if is_digit d then Err else Ok ([48], r)
-           | [] => Ok ([48], r)
-           end
-         else if is_digit c then let '(d, x) := take_digits r in Ok (c :: d, x)
-         else Err
-     | [] => Err
-     end;
-  do (frac, fl, r2) <-
-     match r1 with
-     | 46 :: r =>
-         let '(d, x) := take_digits r in
-         match d with [] => Err | _ => Ok (d, 46 :: d, x) end
-     | _ => Ok ([], [], r1)
-     end;
-  do (ev, el, r3) <- exp_part r2;
+Definition sign_part (s : bytes) : bool * bytes :=
+  match s with 45 :: r => (true, r) | _ => (false, s) end.
+
+Definition int_part (s1 : bytes) : res (bytes * bytes) :=
+  match s1 with
+  | c :: r =>
+      if c =? 48 then
+        match r with
+        | d :: _ => if is_digit d then Err else Ok ([48], r)
+        | [] => Ok ([48], r)
+        end
+      else if is_digit c then let '(d, x) := take_digits r in Ok (c :: d, x)
+      else Err
+  | [] => Err
+  end.
+
+Definition frac_part (r1 : bytes) : res (bytes * bytes * bytes) :=   (* digits, lexeme, rest *)
+  match r1 with
+  | 46 :: r =>
+      let '(d, x) := take_digits r in
+      match d with [] => Err | _ => Ok (d, 46 :: d, x) end
+  | _ => Ok ([], [], r1)
+  end.
+
+Definition num_value (strict neg : bool) (int frac fl : bytes) (ev : Z) (el r3 : bytes) : res (json * bytes) :=
   let lex := (if neg then [45] else []) ++ int ++ fl ++ el in
   match fl, el with
   | [], [] =>
@@ -300,6 +307,13 @@ Definition parse_num (strict : bool) (s : bytes) : res (json * bytes) :=
   | _, _ =>
       if float_ok int frac ev || negb strict then Ok (JFloat lex, r3) else Err
   end.
+
+Definition parse_num (strict : bool) (s : bytes) : res (json * bytes) :=
+  let '(neg, s1) := sign_part s in
+  do (int, r1) <- int_part s1;
+  do (frac, fl, r2) <- frac_part r1;
+  do (ev, el, r3) <- exp_part r2;
+  num_value strict neg int frac fl ev el r3.
 
 Definition expect (p : bytes) (s : bytes) : res bytes :=
   match strip_prefix p s with Some r => Ok r | None => Err end.
